@@ -219,13 +219,22 @@ func genConSession(r *rand.Rand, i int) J {
 	c["ops"] = ops
 	// an include served from the engine's cache, while other goroutines add to the cache
 	c["cache"] = []any{[]any{bs("zz_cached_inc.liq"), []any{nText("[inc:"), nObj(eVar("s")), nText("]")}}}
-	templates = append(templates, []any{nText("<"), J{"t": "include", "e": eLit(vStr("zz_cached_inc.liq"))}, nText(">")})
+	templates = append(templates, []any{nText("("), J{"t": "include", "e": eLit(vStr("zz_cached_inc.liq"))}, nText(")")})
 	c["templates"] = templates
 	for k := 0; k < 12; k++ {
 		ops = append(ops, J{"t": len(templates) - 1, "b": r.Intn(nenv), "entry": pick(r, entries)})
 	}
 	c["ops"] = ops
 	c["cachewriters"] = 2
+	// some engines are configured with custom delimiters, some positions left empty (= default)
+	switch i % 4 {
+	case 1:
+		c["spell"] = J{"delims": []any{bs(""), bs(""), bs("<%"), bs("%>")}}
+	case 2:
+		c["spell"] = J{"delims": []any{bs("[["), bs("]]"), bs(""), bs("")}}
+	case 3:
+		c["spell"] = J{"delims": []any{bs("<<"), bs(">>"), bs("<?"), bs("?>")}}
+	}
 	return c
 }
 
